@@ -13,6 +13,8 @@ def dispatch (j : Json) : R Json := do
   | "judge.C13" => DriverGL.judge j
   | "disc.labels" => DriverDisc.labels j
   | "disc.transform" => DriverDisc.transform j
+  | "disc.reload" => DriverDisc.reload j
+  | "disc.update" => DriverDisc.update j
   | "judge.C04" => DriverDisc.judgeC04 j
   | "judge.C05" => DriverDisc.judgeC05 j
   | o => throw s!"unknown request {o}"
